@@ -65,3 +65,332 @@ impl SlotsProbe {
         v
     }
 }
+
+// ---------------------------------------------------------------------------------
+// CoreProbe: the real Inner / ConnectionState / FrameBuffer / handles, driven
+// single-threaded: the harness decides which event is handled when.
+// ---------------------------------------------------------------------------------
+use crate::frame_buffer::FrameBuffer;
+use amq_protocol::frame::AMQPFrame;
+use std::collections::VecDeque;
+use std::io::{Read, Write};
+
+#[derive(Clone, Debug)]
+pub enum Rd {
+    Chunk(Vec<u8>),
+    Block,
+    Eof,
+    IoErr,
+}
+
+#[derive(Clone, Debug)]
+pub enum Wr {
+    Wrote(usize),
+    Block,
+    Err,
+}
+
+/// scripted transport for one event
+pub struct ScriptStream {
+    pub reads: VecDeque<Rd>,
+    pub writes: VecDeque<Wr>,
+    pub written: Vec<u8>,
+}
+
+impl Read for ScriptStream {
+    fn read(&mut self, buf: &mut [u8]) -> io::Result<usize> {
+        match self.reads.pop_front() {
+            None | Some(Rd::Block) => Err(io::Error::new(io::ErrorKind::WouldBlock, "")),
+            Some(Rd::Eof) => Ok(0),
+            Some(Rd::IoErr) => Err(io::Error::new(io::ErrorKind::ConnectionReset, "")),
+            Some(Rd::Chunk(bs)) => {
+                let n = bs.len().min(buf.len());
+                buf[..n].copy_from_slice(&bs[..n]);
+                if n < bs.len() {
+                    self.reads.push_front(Rd::Chunk(bs[n..].to_vec()));
+                }
+                Ok(n)
+            }
+        }
+    }
+}
+
+impl Write for ScriptStream {
+    fn write(&mut self, buf: &[u8]) -> io::Result<usize> {
+        match self.writes.pop_front() {
+            None | Some(Wr::Block) => Err(io::Error::new(io::ErrorKind::WouldBlock, "")),
+            Some(Wr::Err) => Err(io::Error::new(io::ErrorKind::BrokenPipe, "")),
+            Some(Wr::Wrote(n)) => {
+                let n = n.min(buf.len());
+                self.written.extend_from_slice(&buf[..n]);
+                Ok(n)
+            }
+        }
+    }
+    fn flush(&mut self) -> io::Result<()> {
+        Ok(())
+    }
+}
+
+impl Evented for ScriptStream {
+    fn register(&self, _: &Poll, _: Token, _: Ready, _: PollOpt) -> io::Result<()> {
+        Ok(())
+    }
+    fn reregister(&self, _: &Poll, _: Token, _: Ready, _: PollOpt) -> io::Result<()> {
+        Ok(())
+    }
+    fn deregister(&self, _: &Poll) -> io::Result<()> {
+        Ok(())
+    }
+}
+
+impl IoStream for ScriptStream {}
+
+/// what a client-side receive yields
+pub enum Item {
+    ReplyMethod(AMQPClass),
+    ReplyConsumeOk(String, CrossbeamReceiver<ConsumerMessage>),
+    ReplyGet(Option<Get>),
+    ReplyErr(Error),
+    Consumer(ConsumerMessage),
+    Return(Return),
+    Confirm(Confirm),
+    Blocked(ConnectionBlockedNotification),
+    AllocOk(u16),
+    AllocErr(Error),
+}
+
+pub enum Recv {
+    Item(Item),
+    Empty,
+    Disconnected,
+}
+
+pub enum ClientMsg {
+    Send(Vec<u8>),
+    ConnectionClose(Vec<u8>),
+    SetReturn(Option<CrossbeamSender<Return>>),
+    SetConfirm(Option<CrossbeamSender<Confirm>>),
+}
+
+pub enum ProbeEvent {
+    Stream {
+        write: Option<Vec<Wr>>,
+        read: Option<Vec<Rd>>,
+    },
+    SetBlocked,
+    Alloc,
+    Chan(u16),
+}
+
+pub struct CoreProbe {
+    io: Option<IoLoop>,
+    state: Option<ConnectionState>,
+    ch0: Option<IoLoopHandle0>,
+    handles: HashMap<u16, IoLoopHandle>,
+}
+
+fn raw_buf(bytes: Vec<u8>) -> OutputBuffer {
+    OutputBuffer::verif_from_bytes(bytes)
+}
+
+impl CoreProbe {
+    pub fn new(channel_max: u16, bound: usize) -> Result<CoreProbe> {
+        let tuning = ConnectionTuning::default().mem_channel_bound(bound);
+        let mut io = IoLoop::new(tuning)?;
+        let (ch0_slot, ch0_handle) = Channel0Slot::new(bound);
+        io.inner.chan_slots.set_channel_max(channel_max);
+        // the protocol header is taken to be on the wire already
+        io.inner.outbuf.clear();
+        Ok(CoreProbe {
+            io: Some(io),
+            state: Some(ConnectionState::Steady(ch0_slot)),
+            ch0: Some(ch0_handle),
+            handles: HashMap::new(),
+        })
+    }
+
+    /// ConnectionState::process on one frame
+    pub fn frame(&mut self, frame: AMQPFrame) -> Result<()> {
+        let io = self.io.as_mut().unwrap();
+        self.state.as_mut().unwrap().process(&mut io.inner, frame)
+    }
+
+    /// IoLoop::handle_steady_event; returns the bytes the transport accepted
+    pub fn event(&mut self, ev: ProbeEvent) -> (Result<()>, Vec<u8>) {
+        let io = self.io.as_mut().unwrap();
+        let state = self.state.as_mut().unwrap();
+        let mut stream = ScriptStream {
+            reads: VecDeque::new(),
+            writes: VecDeque::new(),
+            written: Vec::new(),
+        };
+        let event = match ev {
+            ProbeEvent::Stream { write, read } => {
+                let mut ready = Ready::empty();
+                if let Some(w) = write {
+                    ready |= Ready::writable();
+                    stream.writes = w.into_iter().collect();
+                }
+                if let Some(r) = read {
+                    ready |= Ready::readable();
+                    stream.reads = r.into_iter().collect();
+                }
+                Event::new(ready, STREAM)
+            }
+            ProbeEvent::SetBlocked => Event::new(Ready::readable(), SET_BLOCKED_TX),
+            ProbeEvent::Alloc => Event::new(Ready::readable(), ALLOC_CHANNEL),
+            ProbeEvent::Chan(n) => Event::new(Ready::readable(), Token(n as usize)),
+        };
+        let r = io.handle_steady_event(&mut stream, state, event);
+        (r, stream.written)
+    }
+
+    /// IoLoop::is_connection_done
+    pub fn is_done(&self) -> bool {
+        self.io
+            .as_ref()
+            .unwrap()
+            .is_connection_done(self.state.as_ref().unwrap())
+    }
+
+    /// what run_connection would return if the loop ended now without an error
+    pub fn phase(&self) -> (u8, Option<(u16, String)>) {
+        match self.state.as_ref().unwrap() {
+            ConnectionState::Steady(_) => (0, None),
+            ConnectionState::ServerClosing(c) => (1, Some((c.reply_code, c.reply_text.clone()))),
+            ConnectionState::ClientException => (2, None),
+            ConnectionState::ClientClosed => (3, None),
+        }
+    }
+
+    pub fn outbuf(&self) -> Vec<u8> {
+        self.io.as_ref().unwrap().inner.outbuf[0..].to_vec()
+    }
+
+    pub fn sealed(&self) -> bool {
+        self.io.as_ref().unwrap().inner.are_writes_sealed()
+    }
+
+    pub fn slot_ids(&self) -> Vec<u16> {
+        let mut v: Vec<u16> = self
+            .io
+            .as_ref()
+            .unwrap()
+            .inner
+            .chan_slots
+            .iter()
+            .map(|(id, _)| *id)
+            .collect();
+        v.sort();
+        v
+    }
+
+    // ---- client side, never blocking ----
+
+    pub fn cl_send(&mut self, ch: u16, msg: ClientMsg) -> bool {
+        let msg = match msg {
+            ClientMsg::Send(b) => IoLoopMessage::Send(raw_buf(b)),
+            ClientMsg::ConnectionClose(b) => IoLoopMessage::ConnectionClose(raw_buf(b)),
+            ClientMsg::SetReturn(h) => IoLoopMessage::SetReturnHandler(h),
+            ClientMsg::SetConfirm(h) => IoLoopMessage::SetPubConfirmHandler(h),
+        };
+        if ch == 0 {
+            match self.ch0.as_mut() {
+                Some(h) => h.verif_common().verif_try_send(msg),
+                None => false,
+            }
+        } else {
+            match self.handles.get_mut(&ch) {
+                Some(h) => h.verif_try_send(msg),
+                None => false,
+            }
+        }
+    }
+
+    pub fn cl_alloc_req(&mut self, id: Option<u16>) -> bool {
+        match self.ch0.as_mut() {
+            Some(h) => h.verif_try_send_alloc(id),
+            None => false,
+        }
+    }
+
+    pub fn cl_set_blocked(&mut self, tx: CrossbeamSender<ConnectionBlockedNotification>) -> bool {
+        match self.ch0.as_mut() {
+            Some(h) => h.verif_try_send_set_blocked(tx),
+            None => false,
+        }
+    }
+
+    /// receive from the allocation-reply queue; a granted handle is kept by the probe
+    pub fn cl_recv_alloc(&mut self) -> Recv {
+        let h0 = match self.ch0.as_mut() {
+            Some(h) => h,
+            None => return Recv::Disconnected,
+        };
+        match h0.verif_try_recv_alloc() {
+            Ok(Ok(handle)) => {
+                let id = handle.channel_id();
+                self.handles.insert(id, handle);
+                Recv::Item(Item::AllocOk(id))
+            }
+            Ok(Err(e)) => Recv::Item(Item::AllocErr(e)),
+            Err(crossbeam_channel::TryRecvError::Empty) => Recv::Empty,
+            Err(crossbeam_channel::TryRecvError::Disconnected) => Recv::Disconnected,
+        }
+    }
+
+    /// receive from the reply queue of channel `ch` (0 = the connection's own)
+    pub fn cl_recv_reply(&mut self, ch: u16) -> Recv {
+        let h = if ch == 0 {
+            match self.ch0.as_mut() {
+                Some(h) => h.verif_common(),
+                None => return Recv::Disconnected,
+            }
+        } else {
+            match self.handles.get_mut(&ch) {
+                Some(h) => h,
+                None => return Recv::Disconnected,
+            }
+        };
+        match h.verif_try_recv() {
+            Ok(Ok(ChannelMessage::Method(m))) => Recv::Item(Item::ReplyMethod(m)),
+            Ok(Ok(ChannelMessage::ConsumeOk(tag, rx))) => Recv::Item(Item::ReplyConsumeOk(tag, rx)),
+            Ok(Ok(ChannelMessage::GetOk(g))) => Recv::Item(Item::ReplyGet(*g)),
+            Ok(Err(e)) => Recv::Item(Item::ReplyErr(e)),
+            Err(crossbeam_channel::TryRecvError::Empty) => Recv::Empty,
+            Err(crossbeam_channel::TryRecvError::Disconnected) => Recv::Disconnected,
+        }
+    }
+
+    /// drop the client's handle of a channel (0 = the connection's channel-0 handle)
+    pub fn cl_drop_handle(&mut self, ch: u16) {
+        if ch == 0 {
+            self.ch0 = None;
+        } else {
+            self.handles.remove(&ch);
+        }
+    }
+
+    /// the thread ends: its whole state is dropped
+    pub fn teardown(&mut self) {
+        self.state = None;
+        self.io = None;
+    }
+
+    /// serialize a method as a handle of channel `ch` would (IoLoopHandle::make_buf)
+    pub fn make_method_buf<M: IntoAmqpClass>(&mut self, ch: u16, method: M) -> Option<Vec<u8>> {
+        let h = if ch == 0 {
+            self.ch0.as_mut().map(|h| h.verif_common())
+        } else {
+            self.handles.get_mut(&ch)
+        }?;
+        let buf = h.verif_make_buf(method);
+        Some(buf[0..].to_vec())
+    }
+}
+
+/// the frame buffer is part of IoLoop; give tests a fresh one when they need it
+pub fn new_frame_buffer() -> FrameBuffer {
+    FrameBuffer::new()
+}
